@@ -127,6 +127,27 @@ CLAIMED = {
         "Trusted: Coq kernel; model tied by sampled correspondence; normalizeReference's case mapping is an opaque recorded table in the model; document-level equivalence by exploration (partial).",
         "DESIGN.md §3 C16",
     ),
+    "C06": (
+        "proof",
+        "Coq proofs on the block model (row-level agreement of block quote marker stripping and line scanning) + whole-pipeline correspondence on wrapped documents + container-law oracle on the implementation",
+        "Theorems for ALL sources: for a tab-free quoted line '>' ' ' blank^k rest the row that the block quote rule writes into the line tables is (bMarks+2, tShift=k, sCount=k, bsCount+sc+2, empty iff nothing follows) (C06_quote_prefix_row), which is the row the line scanner computes for the un-prefixed line blank^k rest shifted two characters right (C06_scanned_text_row, C06_scanned_blank_row): line by line the nested block loop sees the tables of the un-quoted document. The document-level laws (nested loop produces the same tokens, levels +1/+2, same maps, content, env; list item form modulo hidden, lazy-line leading blanks, thematic-break precedence) are decided each run on the implementation for generated tab-free documents with 0-3 random wraps applied first (containers within containers), quote law under four configurations, item law with 8 markers x 1-4 spaces; the correspondence ties the model to the implementation on the wrapped documents.",
+        "Trusted: Coq kernel; block model tied by sampled correspondence; document-level law by exploration (partial).",
+        "DESIGN.md §3 C06",
+    ),
+    "C07": (
+        "proof",
+        "Coq proofs on the line scanner (split at any point, nothing remembered across a line feed) + whole-pipeline correspondence on concatenations + concatenation-law oracle on the implementation",
+        "Theorems: the line scanner is a left fold that splits at any point (C07_line_scan_splits) and after a line feed is back in its initial mode with only the finished rows appended (C07_scanner_forgets_at_lf), so the per-line tables of A + blank + B are those of A, a blank row and those of B shifted. That no rule leaks container context, tight flags or parentType across top-level blocks is decided each run on the implementation: generated pairs (A, B) incl. hand families aimed at leaks (tables followed directly by list lines, lists with empty first items, failed setext headings / definitions before lists), side conditions evaluated as the property states them, blocks(A + blank + B) = blocks(A) ++ shifted blocks(B) on block tokens and inline content under commonmark, js-default, commonmark+table and random rule subsets (container maps compared with trailing blank lines trimmed).",
+        "Trusted: Coq kernel; block model tied by sampled correspondence; document-level law by exploration (partial).",
+        "DESIGN.md §3 C07",
+    ),
+    "C20": (
+        "other",
+        "Coq proofs of the inline parser's guards on the model (skipToken memoisation, nesting cap) + guard-state correspondence (memo table, backtick closer cache) model vs implementation + deterministic call-count measurement of growth on the implementation",
+        "Cost is not a functional property of the model, so family-level linearity is measured, not proved. Proved for ALL states: a skipToken hit runs no rule, a miss caches its position - the maxNesting bail-out included - so the body runs at most once per position, and at the cap the tail is skipped rather than recursed into (C20_skip_token_hit, C20_skip_token_memo, C20_nesting_cap). Each run: the guard state after ParserInline.tokenize (memo table, backtick cache, scanned flag) of model and implementation must coincide on three small sizes of each of ~85 scalable input families, and the implementation's calls into markdown_it (sys.setprofile) are counted at L, 2L, 4L per family x {commonmark, js-default+typographer}: a doubling may multiply the work by at most 2.4 (plus constant slack) and the Python stack depth may not grow beyond what maxNesting allows. Known finding (listed, reported each run): consecutive reference definitions are quadratic.",
+        "Trusted: Coq kernel; inline model tied by sampled correspondence incl. guard state; growth is a measurement at finitely many lengths (quick L=700, thorough L=12000).",
+        "DESIGN.md §3 C20",
+    ),
 }
 
 NOT_YET = {}
